@@ -135,3 +135,12 @@ Example partition_ranks_from_sorted_set : Logic.partition_unique_sorted = true. 
 (* `if m.number_of_nodes() == 0: return m.copy()`; relabel_nodes(..., copy=True) *)
 Example canon_empty_guard : Logic.canon_empty_test = ("Eq", 0%Z). Proof. reflexivity. Qed.
 Example canon_relabels_a_copy : Logic.canon_relabel_copy = true. Proof. reflexivity. Qed.
+
+(* ------------------------------------------------------------------ graph_utils.py *)
+
+(* INVARIANT_CODE is built from InvariantCodeDefinition(KEY[, default]) entries only, the value being attrs[key] or
+   attrs.get(key, default): no further field that could identify distinct values (Mol.inv_code = (zn, mass or 0, rad or 0);
+   the entries themselves are Params.invariant_code_defs, checked in ParamsSpec.v) *)
+Example invariant_code_has_no_further_rule : Logic.invariant_code_plain = true. Proof. reflexivity. Qed.
+(* attribute_sequence returns the atom's own value first, then the (sorted) neighbour values (Partition.keyL) *)
+Example attribute_sequence_own_value_first : Logic.attribute_sequence_own_first = true. Proof. reflexivity. Qed.
